@@ -139,6 +139,13 @@ CHECKS["C05"] = ("model-based property-based testing (Hypothesis): generated dec
             "with the model; on failure the raised error must be one the model finds.",
             "Trusted: the reference model vf/checks/c05.py:model (written from docs/en/references/field.md, options.md, guide/cls.md); single-value conversion via utype.type_transform.", "3/C05")
 
+CHECKS["C20"] = ("schedule exploration driven by generated inputs: a harness-owned deterministic scheduler (sys.settrace line events, one thread runs at a time) replays preemption schedules over first-use workloads; 1-preemption schedules enumerated exhaustively, 2-3-preemption schedules drawn by Hypothesis; oracle = every call's run-alone outcome",
+            "hypothesis",
+            "Exploration: for the workloads W1 (first calls on classes with unresolved, constrained and nested references) and W2 (first calls on decorated functions with forward-referenced "
+            "parameters, *args, **kwargs) every single preemption point (about 9000 source-line positions, both start orders) is replayed on a fresh declaration; W3 (cold registry lookups) and "
+            "W4 (subclass and base first used together) plus 2- and 3-preemption schedules with up to 3 threads are sampled. Every call must return its run-alone outcome; internal errors are violations.",
+            "Trusted: the scheduler in vf/checks/c20.py (line granularity under the GIL; a thread blocked on a real lock is released after 60 ms without progress).", "3/C20")
+
 NOT_YET = "check not built yet in this round (planned, see DESIGN.md section 3)"
 
 
